@@ -25,7 +25,10 @@ RULE = ("histories per simulation kind (single-cycle, five-stage with generated 
         "exactly when is_done() holds afterwards; an empty program is done immediately; once done, every further call leaves "
         "the snapshot unchanged; a twin driven by run() ends in the same snapshot (or raises the same fault). non-trivial = "
         ">=1 failed load before the final one, or >=2 calls after done on a program that ended by an exiting ecall / taken "
-        "jump; distinct = hash(history)")
+        "jump; distinct = hash(history)"
+        ' Between earlier loads every inspection function is called; after the final load every inspection result is co'
+        'mpared with the fresh simulation. Mid-run kind: load, k steps, load (any text), then run() vs stepping on twin'
+        's replaying the same history.')
 ASSUMPTIONS = [
     "programs are loaded only while the simulation has not started (the property's precondition)",
     "wall-clock fields of the metrics are excluded from snapshots",
